@@ -216,6 +216,11 @@ func work(rq request) response {
 		}
 		if touchesBad {
 			rp.Counters["selections_including_an_unreadable_page"]++
+			// whether a selection with an unreadable page can be served is one answer,
+			// not one per terminal operation
+			if n := b2i(errT == nil) + b2i(errF == nil) + b2i(errD == nil) + b2i(errC == nil); n != 0 && n != 4 {
+				add("unreadable-page-ops-disagree", "%s (includes an unreadable page): Text err=%v, Fragments err=%v, Document err=%v, Chunks err=%v", name, errT, errF, errD, errC)
+			}
 			if l := fdsOf(dir); len(l) != 0 {
 				add("fd-leak", "%s (includes an unreadable page): %d descriptor(s) open after four terminal operations: %v", name, len(l), l)
 			}
@@ -600,6 +605,13 @@ func genSpellings(r *rand.Rand, n int) []spelling {
 	return sps
 }
 
+func b2i(b bool) int {
+	if b {
+		return 1
+	}
+	return 0
+}
+
 func genHistory(r *rand.Rand, n int) []histStep {
 	var hs []histStep
 	nslots := 1
@@ -707,7 +719,8 @@ func Run(c *fw.Ctx) {
 		}
 		damage := i%4 == 3 // one page's content stream is made undecodable
 		if damage {
-			lay.Filter, lay.Forms, lay.Split = "Fl", false, 1
+			// the filter entry is a name, or an array (a chain of two stages)
+			lay.Filter, lay.Forms, lay.Split = []string{"Fl", "AHxFl", "A85Fl"}[i/4%3], false, 1
 		}
 		b := pdfw.Build(r.Int63(), lay, []*pdfw.Doc{g.Doc})
 		path := filepath.Join(dir, fmt.Sprintf("c%05d.pdf", i))
@@ -717,9 +730,26 @@ func Run(c *fw.Ctx) {
 		if damage && np >= 2 {
 			leaves := g.Doc.Leaves()
 			bp := r.Intn(np) // 0-based leaf index
+			if i/4%2 == 0 {
+				bp = 0 // the page the probes look at
+			}
 			if rg, ok := b.StreamRanges[fmt.Sprintf("page:%d:content:0", leaves[bp].Node.ID)]; ok && rg[1]-rg[0] > 8 {
 				for k := rg[0]; k < rg[1]; k++ {
 					b.Bytes[k] = 0 // not a zlib stream any more; length and offsets unchanged
+				}
+				// chains: the outer (ASCII) stage still decodes, to something that is no
+				// zlib stream — the failure is in the second stage
+				switch lay.Filter {
+				case "AHxFl":
+					for k := rg[0]; k < rg[1]-1; k++ {
+						b.Bytes[k] = '4'
+					}
+					b.Bytes[rg[1]-1] = '>'
+				case "A85Fl":
+					for k := rg[0]; k < rg[1]-2; k++ {
+						b.Bytes[k] = '!'
+					}
+					b.Bytes[rg[1]-2], b.Bytes[rg[1]-1] = '~', '>'
 				}
 				badPages = []int{bp + 1}
 				c.Seen("fault", "page-content-undecodable")
@@ -728,6 +758,11 @@ func Run(c *fw.Ctx) {
 		os.WriteFile(path, b.Bytes, 0o644)
 		defer os.Remove(path)
 		rq := request{Path: path, NPages: np, PageToks: toks, Spellings: genSpellings(r, np), History: genHistory(r, np), BadPages: badPages}
+		if len(badPages) > 0 {
+			// a probe that meets the unreadable page, then terminal operations on the same
+			// extractor (compared with freshly built equal extractors like every step)
+			rq.History = append([]histStep{{Target: 0, Op: "IsMultiColumn"}, {Target: 0, Op: "Text"}, {Target: 0, Op: "IsCharacterLevel"}, {Target: 0, Op: "Chunks"}}, rq.History...)
+		}
 		if len(badPages) > 0 {
 			// every way of asking for the readable pages only, with and without header/footer exclusion
 			var good []int
